@@ -140,7 +140,9 @@ def _run(ctx, e2e):
         orders = WF.admissible_orders(interp, nv)
         order = int(rng.choice(orders))
         ds = WF.gen_dataset(rng, system=system, nv=nv, nq=int(rng.integers(1, 6)), natoms=int(rng.integers(1, 5)),
-                            data_class="poly3" if (interp == "lsq_poly" and order >= 3) else "power-law", lattice=bool(i % 2))
+                            # metamorphic runs need no closed form: generic (non power-law) spectra make the choice of interpolation
+                            # nodes matter, so that a presentation-dependent node selection becomes visible
+                            data_class="generic" if i % 3 else ("poly3" if (interp == "lsq_poly" and order >= 3) else "power-law"), lattice=bool(i % 2))
         cfg = WF.gen_settings(rng, ds, interpolator=interp, order=order, nt=int(rng.integers(2, 7)), ntv=int(rng.integers(8, 41)))
         wd = e2e.workdir(case_id)
         WF.write_dataset(ds, cfg, wd)
